@@ -699,3 +699,112 @@ func (in *Interner) Block(b m.PBlock) *Block {
 	out.Version = &v
 	return out
 }
+
+// ---- AuthorizerPolicies (authorizer snapshot) ----
+
+type Snapshot struct {
+	Symbols  []string
+	Version  *uint32
+	Facts    []Pred
+	Rules    []Rule
+	Checks   []Check
+	Policies []Policy
+}
+
+func (s *Snapshot) Encode() []byte {
+	e := &Enc{}
+	for _, x := range s.Symbols {
+		e.Bytes(1, []byte(x))
+	}
+	if s.Version != nil {
+		e.Varint(2, uint64(*s.Version))
+	}
+	for _, f := range s.Facts {
+		fe := &Enc{}
+		fe.Msg(1, f.enc())
+		e.Msg(3, fe)
+	}
+	for _, r := range s.Rules {
+		e.Msg(4, r.enc())
+	}
+	for _, c := range s.Checks {
+		e.Msg(5, c.enc())
+	}
+	for _, p := range s.Policies {
+		pe := &Enc{}
+		for _, q := range p.Queries {
+			pe.Msg(1, q.enc())
+		}
+		if !p.KindAbsent {
+			pe.Varint(2, p.Kind)
+		}
+		e.Msg(6, pe)
+	}
+	return e.Buf
+}
+
+// DecodeSnapshot reads an AuthorizerPolicies message.
+func DecodeSnapshot(b []byte) (*Snapshot, error) {
+	fs, err := Parse(b)
+	if err != nil {
+		return nil, err
+	}
+	out := &Snapshot{}
+	for _, s := range allBytes(fs, 1) {
+		out.Symbols = append(out.Symbols, string(s))
+	}
+	if v, ok := lastVarint(fs, 2); ok {
+		u := uint32(v)
+		out.Version = &u
+	}
+	for _, fb := range allBytes(fs, 3) {
+		ffs, err := Parse(fb)
+		if err != nil {
+			return nil, err
+		}
+		pb, ok := mergedMsg(ffs, 1)
+		if !ok {
+			return nil, malformed("fact without predicate")
+		}
+		p, err := decodePred(pb)
+		if err != nil {
+			return nil, err
+		}
+		out.Facts = append(out.Facts, p)
+	}
+	for _, rb := range allBytes(fs, 4) {
+		r, err := decodeRule(rb)
+		if err != nil {
+			return nil, err
+		}
+		out.Rules = append(out.Rules, r)
+	}
+	for _, cb := range allBytes(fs, 5) {
+		c, err := decodeCheck(cb)
+		if err != nil {
+			return nil, err
+		}
+		out.Checks = append(out.Checks, c)
+	}
+	for _, pb := range allBytes(fs, 6) {
+		pfs, err := Parse(pb)
+		if err != nil {
+			return nil, err
+		}
+		var p Policy
+		for _, qb := range allBytes(pfs, 1) {
+			q, err := decodeRule(qb)
+			if err != nil {
+				return nil, err
+			}
+			p.Queries = append(p.Queries, q)
+		}
+		k, ok := lastVarint(pfs, 2)
+		if !ok {
+			return nil, malformed("policy without kind")
+		}
+		p.Kind = uint64(uint32(k))
+		out.Policies = append(out.Policies, p)
+	}
+	return out, nil
+}
